@@ -29,7 +29,7 @@ m = {
     "engines": [{"name": "vcheck", "path": "/verif/engine", "serves_properties": [c["property_id"] for c in checks],
                  "kind_free_text": "symbolic executor for Go SSA (golang.org/x/tools/go/ssa) written for this task: bit-vector/FP terms, forking with solver pruning, z3 incremental + z3/z3-new/cvc5 portfolio, native replay and translator validation via go test -overlay"}],
     "checks": checks,
-    "notes": "Every result is bounded: see evidence coverage.harnesses[].bounds and DESIGN.md section 8. Exit 0 with INCONCLUSIVE lines means some obligation could not be decided at the registered bound (recorded in evidence); VIOLATION lines are printed only for counterexamples that reproduce natively.",
+    "notes": "Every result is bounded: see evidence coverage.harnesses[].bounds and DESIGN.md section 8. Exit 0 with INCONCLUSIVE lines means some obligation could not be decided at the registered bound (recorded in evidence); exit 3 means the run decided nothing (engine could not execute the code, vacuous harness, counterexample that does not replay); VIOLATION lines (exit 1) are printed only for counterexamples that reproduce natively. Known findings: /verif/known_findings.json (C05-F1 is the only open one; the check prints KNOWN-FINDING lines for it and exits 0).",
     "not_applicable": na,
 }
 json.dump(m, open(os.path.join(root, 'MANIFEST.json'), 'w'), indent=1)
